@@ -133,3 +133,17 @@ CLAIMED['C13'] = dict(
           'delegated to the hunk parser (C14, which does not decide geometry either). Known finding: diffs in a multi-byte '
           'encoding count zero lines.'),
     technique='effect analysis (mutation events on the metadata mapping) + taint (no-feedback) + key-set agreement tables')
+
+CLAIMED['C08'] = dict(
+    category='other',
+    text=('Exception-escape analysis: for each of the 9 section ids one reader iteration is abstractly executed from the loop '
+          'state in which that id is allowed (input-tainted header/option/content unknowns, havocked object state, content '
+          'function inlined, utils summarised); every sink-table operation on input-dependent operands not caught by an '
+          'enclosing handler and every explicit raise must be DiffXParseError. The same for the DOM load (handlers on abstract '
+          'records, open option mapping on the record under test): only BaseDiffXError subclasses may escape. Stream closed '
+          'on every exit of the parse function itself; DiffXParseError stores the linenum/column it formats; raise sites '
+          'pass computed line numbers.'),
+    note=('Sound relative to the sink table (an operation missing from it is a missed alarm; unmodelled external calls are '
+          'recorded). Termination and "linenum within the input" are argued, not decided. One reasoned suppression (assert '
+          'newline, discharged by C15-R2). Known findings: two DOM-load escapes (TypeError).'),
+    technique='taint-driven exception-escape analysis with handler subtraction (sink table) over path-sensitive abstract interpretation')
